@@ -460,6 +460,9 @@ pub fn run_case_caught(case: &Case, trace: bool) -> CaseResult {
 /// when it is a hang of wait())
 pub fn failures_for(prop: &str, case: &Case, stats: Option<&Stats>, nontrivial: fn(&Feats) -> bool) -> Result<Vec<String>, String> {
     match run_case_caught(case, false) {
+        // every generated configuration is one the builder documents as valid (non-zero counters,
+        // max_cost and buffer size): a refusal is what C20 excludes
+        CaseResult::Harness(m) if prop == "C20" && m.starts_with("cache could not be built") => Ok(vec![format!("[valid_config_rejected] {} ({:?})", m, case.cfg)]),
         CaseResult::Harness(m) => Err(m),
         CaseResult::Panic(p) => {
             let hang_wait = p.contains("HANG wait");
@@ -612,6 +615,7 @@ pub fn replay_ls(prop: &str, case: &Case) -> (Vec<String>, Vec<String>) {
             rep.trace,
         ),
         CaseResult::Panic(p) => (vec![format!("panic: {}", p)], vec![]),
+        CaseResult::Harness(h) if prop == "C20" && h.starts_with("cache could not be built") => (vec![format!("[valid_config_rejected] {}", h)], vec![]),
         CaseResult::Harness(h) => (vec![], vec![format!("HARNESS: {}", h)]),
     }
 }
